@@ -47,6 +47,22 @@ __all__ = [
 ]
 
 
+def _timed_rows(duration: float, dt: float) -> int:
+    """
+    Number of time bins for a timed compartment
+
+    The number of bins is ``ceil(duration/dt)`` (at least 1). The ratio is rounded first so that a duration
+    that is a whole number of timesteps up to floating point error (e.g. ``(5/12)/(1/12) = 5.000000000000001``)
+    does not gain an extra bin, which would keep people in the compartment for an extra timestep.
+
+    :param duration: Duration in years
+    :param dt: Timestep in years
+    :return: Number of rows in the keyring matrix
+
+    """
+    return max(1, math.ceil(round(duration / dt, 9)))
+
+
 class BadInitialization(Exception):
     """
     Error for invalid conditions
@@ -834,7 +850,7 @@ class TimedCompartment(Compartment):
         self.dt = dt
         assert np.all(self.parameter.vals == self.parameter.vals[0]), "Duration parameter value cannot vary over time"
         duration = self.parameter.vals[0] * self.parameter.timescale * self.parameter.scale_factor
-        self._vals = np.empty((max(1, math.ceil(duration / dt)), tvec.size), order="F")  # Fortran/column-major order should be faster for summing over lags to get `vals`
+        self._vals = np.empty((_timed_rows(duration, dt), tvec.size), order="F")  # Fortran/column-major order should be faster for summing over lags to get `vals`
         self._vals.fill(np.nan)
 
     def resolve_outflows(self, ti: int) -> None:
@@ -1495,7 +1511,7 @@ class TimedLink(Link):
             parameter = self.pop.par_lookup[self.source.duration_group]
             assert np.all(parameter.vals == parameter.vals[0]), "Duration parameter value cannot vary over time"
             duration = parameter.vals[0] * parameter.timescale * parameter.scale_factor
-            self._vals = np.empty((math.ceil(duration / dt), tvec.size), order="F")  # Fortran/column-major order should be faster for summing over lags to get `vals`
+            self._vals = np.empty((_timed_rows(duration, dt), tvec.size), order="F")  # Fortran/column-major order should be faster for summing over lags to get `vals`
         self._vals.fill(np.nan)
 
     def update(self, ti: int, converted_frac: float) -> None:
